@@ -35,6 +35,11 @@ type Channel struct {
 	// using the channel when closing it.
 	sync.RWMutex
 	closed bool
+	// closeCh is closed when the channel is being closed to wake up
+	// goroutines blocked on the queues of the channel while holding
+	// the read lock.
+	closeCh   chan struct{}
+	closeOnce sync.Once
 
 	channelId int
 
@@ -84,6 +89,7 @@ func (tds *Conn) NewChannel() (*Channel, error) {
 		queueTx:            NewPacketQueue(tds.PacketSize),
 		packageCh:          make(chan Package, tds.info.ChannelPackageQueueSize),
 		errCh:              make(chan error, 10),
+		closeCh:            make(chan struct{}),
 	}
 
 	tds.tdsChannelsLock.Lock()
@@ -186,6 +192,11 @@ func (tdsChan *Channel) Close() error {
 
 		// TODO process ack packet
 	}
+
+	// Wake up goroutines blocked on the queues of the channel - they
+	// hold the read lock, the write lock could never be acquired
+	// otherwise.
+	tdsChan.closeOnce.Do(func() { close(tdsChan.closeCh) })
 
 	// Lock the channel and store the closed indicator.
 	tdsChan.Lock()
@@ -348,6 +359,8 @@ func (tdsChan *Channel) NextPackage(ctx context.Context, wait bool) (Package, er
 		return nil, fmt.Errorf("passed context is closed: %w", ctx.Err())
 	case <-tdsChan.tdsConn.ctx.Done():
 		return nil, fmt.Errorf("connection context is closed: %w", tdsChan.tdsConn.ctx.Err())
+	case <-tdsChan.closeCh:
+		return nil, ErrChannelClosed
 	case err := <-tdsChan.tdsConn.errCh:
 		return nil, fmt.Errorf("error in TDS connection: %w", err)
 	case err := <-tdsChan.errCh:
@@ -602,6 +615,24 @@ func (tdsChan *Channel) sendPacket(packet *Packet) error {
 	return nil
 }
 
+// queuePackage passes a package to the consumers of the channel. It
+// does not block if the channel is being closed.
+func (tdsChan *Channel) queuePackage(pkg Package) {
+	select {
+	case tdsChan.packageCh <- pkg:
+	case <-tdsChan.closeCh:
+	}
+}
+
+// queueError passes an error to the consumers of the channel. It does
+// not block if the channel is being closed.
+func (tdsChan *Channel) queueError(err error) {
+	select {
+	case tdsChan.errCh <- err:
+	case <-tdsChan.closeCh:
+	}
+}
+
 // WritePacket receives packets from the associated Conn and attempts to
 // produce Packages from the existing data.
 func (tdsChan *Channel) WritePacket(packet *Packet) {
@@ -619,7 +650,7 @@ func (tdsChan *Channel) WritePacket(packet *Packet) {
 	// response, as it may carry the EOM status.
 	if packet.Header.Length == PacketHeaderSize &&
 		packet.Header.MsgType != TDS_BUF_RESPONSE && packet.Header.MsgType != TDS_BUF_NORMAL {
-		tdsChan.packageCh <- &HeaderOnlyPackage{Header: packet.Header}
+		tdsChan.queuePackage(&HeaderOnlyPackage{Header: packet.Header})
 		return
 	}
 
@@ -662,7 +693,7 @@ func (tdsChan *Channel) tryParsePackage() bool {
 			// - usually only when a procedure with multiple commands is
 			// being executed.
 			if lastPkg, ok := tdsChan.lastPkgRx.(*DonePackage); !ok || lastPkg.Status != TDS_DONE_FINAL {
-				tdsChan.packageCh <- &DonePackage{Status: TDS_DONE_FINAL}
+				tdsChan.queuePackage(&DonePackage{Status: TDS_DONE_FINAL})
 			}
 
 			// The response is complete - forget its DonePackage, it
@@ -679,7 +710,7 @@ func (tdsChan *Channel) tryParsePackage() bool {
 	// Create Package.
 	pkg, err := LookupPackage(Token(tokenByte))
 	if err != nil {
-		tdsChan.errCh <- err
+		tdsChan.queueError(err)
 		return false
 	}
 
@@ -690,7 +721,7 @@ func (tdsChan *Channel) tryParsePackage() bool {
 
 	if acceptor, ok := pkg.(LastPkgAcceptor); ok {
 		if err := acceptor.LastPkg(tdsChan.lastPkgRx); err != nil {
-			tdsChan.errCh <- fmt.Errorf("error in LastPkg: %w", err)
+			tdsChan.queueError(fmt.Errorf("error in LastPkg: %w", err))
 			return false
 		}
 	}
@@ -703,7 +734,7 @@ func (tdsChan *Channel) tryParsePackage() bool {
 		}
 
 		// Parsing went wrong, record as error
-		tdsChan.errCh <- fmt.Errorf("error parsing package %T: %w", pkg, err)
+		tdsChan.queueError(fmt.Errorf("error parsing package %T: %w", pkg, err))
 		return false
 	}
 
@@ -713,7 +744,7 @@ func (tdsChan *Channel) tryParsePackage() bool {
 
 	pass, err := tdsChan.handleSpecialPackage(pkg)
 	if err != nil {
-		tdsChan.errCh <- fmt.Errorf("error while handling special package: %w", err)
+		tdsChan.queueError(fmt.Errorf("error while handling special package: %w", err))
 		// Package handling errored, but the package could be parsed.
 		// Continue.
 		return true
@@ -724,7 +755,7 @@ func (tdsChan *Channel) tryParsePackage() bool {
 		return true
 	}
 
-	tdsChan.packageCh <- pkg
+	tdsChan.queuePackage(pkg)
 	tdsChan.lastPkgRx = pkg
 	return true
 }
